@@ -11,6 +11,7 @@ REGISTRY = {
     'C06': ('checks.server', 'c06'),
     'C07': ('checks.server', 'c07'),
     'C08': ('checks.streams', 'c08'),
+    'C09': ('checks.batch', 'c09'),
     'C10': ('checks.tee', 'c10'),
     'C16': ('checks.streams', 'c16'),
     'C17': ('checks.iterqueue', 'c17'),
